@@ -439,7 +439,7 @@ proof fn witness_requires() {
 }
 
 //@@ impl src/xls.rs Xls nth=1
-//@@ fn src/xls.rs Xls::parse_workbook props=C16 ret=res r4 mutparams
+//@@ fn src/xls.rs Xls::parse_workbook props=C16,C14 ret=res r4 mutparams
 //@@ r6 0
 //@@ r6 2
 //@@ replace /let stream = (cfb\s*\.get_stream\([^;]*?\))\s*\.or_else\(\|_\|\s*([^;]*)\)\?;/ (as in unit xlswb) Verus rejects closures that capture `&mut` variables (cfb, reader); `a.or_else(|_| b)` is by definition `match a { Ok(v) => Ok(v), Err(_) => b }` (core::result)
@@ -469,7 +469,7 @@ let stream = (match \g<1> { Ok(__v) => Ok(__v), Err(_) => \g<2> })?;
                     sheet_names@ == names_of(g_fold(done, g0, forced).sheets),
                     //# C16.lbl_records_collected_in_order
                     lbl_acc(defined_names@, lbls_of(done, g0, forced)),
-                    //# C16.xti_table_collected_in_order
+                    //# C16,C14.xti_table_collected_in_order
                     xti_acc(xtis@, xtis_of(done)),
                     //# C16.supbook_records_collected_in_order
                     supbooks@ == sup_flags(supbooks_of(done)),
@@ -559,7 +559,7 @@ let stream = (match \g<1> { Ok(__v) => Ok(__v), Err(_) => \g<2> })?;
                             let ghost __xin = xtis@;
                             match __ch.next() {
                                 None => { proof {
-                                    //# C16.xti_table_ends_with_last_complete_entry
+                                    //# C16,C14.xti_table_ends_with_last_complete_entry
                                     assert(__n == xs_count(__d));
                                     assert(xs_entries(__d).take(__n as int) =~= xs_entries(__d)); } break; }
                                 Some(xti) => {
